@@ -5,7 +5,7 @@ import copy
 import re
 
 from ..fold import NotConst, Regex
-from ..model import AnalysisError, U, walk_no_nested, parent
+from ..model import AnalysisError, U, walk_no_nested, parent, clone
 from ..tables import sre_parse, sre_c, shape_of
 from .tablerules import tables_of, PLACEHOLDER
 
@@ -30,7 +30,7 @@ def _subst_hm(test, h, m):
         def visit_Name(self, node):
             r = self._name(node)
             return r if r is not None else node
-    return ast.fix_missing_locations(Sub().visit(copy.deepcopy(test)))
+    return ast.fix_missing_locations(Sub().visit(clone(test)))
 
 
 VALID_HM = [(-1, -30), (-1, 0), (0, -30), (0, 0), (0, 30), (1, 0), (1, 30)]
